@@ -307,3 +307,147 @@ VERIF_HARNESS(c16_l1_replace_percents) {
   free(s);
   VERIF_REACH("L1 end");
 }
+
+/* ---- B1: coap_split_uri / coap_split_proxy_uri (scheme, host incl. IPv6 literal, port, path, query) -------------------
+ * Shape: concrete scheme prefix "<scheme>://" (one job per scheme) followed by K symbolic bytes, or (NOSCHEME) an entirely
+ * symbolic N-byte string. Input is an exact-size heap object. Oracle: an independent splitter written from
+ * RFC 7252 6.1/6.2 (coap-URI = scheme "://" host [":" port] path-abempty ["?" query]) and RFC 3986 3.2.2 (IP-literal). */
+#ifdef B1
+#ifndef SCH
+#define SCH 0
+#endif
+#ifndef K
+#define K 3
+#endif
+#ifndef PROXY
+#define PROXY 0
+#endif
+static int b1_sup[6];
+int coap_dtls_is_supported(void) { return b1_sup[0]; }
+int coap_tcp_is_supported(void) { return b1_sup[1]; }
+int coap_tls_is_supported(void) { return b1_sup[2]; }
+int coap_ws_is_supported(void) { return b1_sup[3]; }
+int coap_wss_is_supported(void) { return b1_sup[4]; }
+
+typedef struct { int ok; int port; int ho, hl, po, pl, qo, ql; } ruri_t;
+
+/* r: the bytes after "://" (n of them); offsets are relative to r */
+static void
+ref_authority(const uint8_t *r, int n, int defport, ruri_t *u) {
+  int i = 0, unix_dom = 0;
+  u->ok = 0; u->port = defport; u->ho = u->hl = u->po = u->pl = u->qo = u->ql = 0;
+  if (n == 0) return;
+  if (r[0] == '[') {
+    int e = 1;
+    while (e < n && r[e] != ']') e++;
+    if (e >= n || e == 1) return;
+    u->ho = 1; u->hl = e - 1; i = e + 1;
+  } else {
+    while (i < n && r[i] != ':' && r[i] != '/' && r[i] != '?') i++;
+    if (i == 0) return;
+    u->ho = 0; u->hl = i;
+    if (n >= 3 && r[0] == '%' && r[1] == '2' && (r[2] == 'F' || r[2] == 'f')) { unix_dom = 1; u->port = 0; }
+  }
+  if (i < n && r[i] == ':') {
+    long v = 0; int d = 0;
+    if (unix_dom) return;
+    i++;
+    while (i < n && r[i] >= '0' && r[i] <= '9') { if (v <= 65535) v = v * 10 + (r[i] - '0'); i++; d++; }
+    if (v > 65535) return;
+    if (d) u->port = (int)v;
+  }
+  if (i < n) {
+    if (r[i] == '/') {
+      int s = ++i;
+      while (i < n && r[i] != '?') i++;
+      u->po = s; u->pl = i - s;
+    } else if (r[i] != '?') return;
+  }
+  if (i < n) { /* r[i] == '?' */ u->qo = i + 1; u->ql = n - i - 1; }
+  u->ok = 1;
+}
+
+static const char *const b1_names[8] = { "coap", "coaps", "coap+tcp", "coaps+tcp", "http", "https", "coap+ws", "coaps+ws" };
+static const int b1_ports[8] = { 5683, 5684, 5683, 5684, 80, 443, 80, 443 };
+static const int b1_proxy_only[8] = { 0, 0, 0, 0, 1, 1, 0, 0 };
+static const int b1_supidx[8] = { -1, 0, 1, 2, -1, -1, 3, 4 };
+static const int b1_schemes[8] = { COAP_URI_SCHEME_COAP, COAP_URI_SCHEME_COAPS, COAP_URI_SCHEME_COAP_TCP, COAP_URI_SCHEME_COAPS_TCP,
+                                   COAP_URI_SCHEME_HTTP, COAP_URI_SCHEME_HTTPS, COAP_URI_SCHEME_COAP_WS, COAP_URI_SCHEME_COAPS_WS };
+
+VERIF_HARNESS(c16_b1_split_uri) {
+  int j;
+  for (j = 0; j < 5; j++) { VERIF_IN(uint8_t, b); b1_sup[j] = b & 1; }
+#ifdef NOSCHEME
+  /* entirely symbolic string of N bytes: shorter than any "<scheme>://x", so only the leading-'/' form can be accepted */
+#define TOT N
+  const int pre = 0;
+#if N > 0
+  VERIF_IN_BUF(in, N);
+#else
+  uint8_t in[1] = {0};
+#endif
+#else
+#define PRE_MAX 12
+#define TOT (PRE_MAX + K)
+  static uint8_t in[PRE_MAX + K + 1];
+  const char *nm = b1_names[SCH];
+  int pre = 0;
+  while (nm[pre]) { in[pre] = (uint8_t)nm[pre]; pre++; }
+  in[pre++] = ':'; in[pre++] = '/'; in[pre++] = '/';
+  for (j = 0; j < K; j++) { VERIF_IN(uint8_t, c); in[pre + j] = c; }
+#endif
+#ifdef NOSCHEME
+  const size_t len = N;
+#else
+  const size_t len = (size_t)pre + K;
+#endif
+  uint8_t *s = exact(in, len);
+  coap_uri_t uri;
+  memset(&uri, 0x5a, sizeof(uri));
+  int res = PROXY ? coap_split_proxy_uri(s, len, &uri) : coap_split_uri(s, len, &uri);
+  ruri_t u;
+#ifdef NOSCHEME
+  if (len > 0 && s[0] == '/' && !PROXY) {
+    /* abs-path [ "?" query ]: no scheme, host or port */
+    int i = 1;
+    while (i < (int)len && s[i] != '?') i++;
+    VERIF_ASSERT(res == 0, "B1 an absolute path with optional query is accepted");
+    VERIF_ASSERT(uri.host.length == 0 && uri.port == COAP_DEFAULT_PORT, "B1 no host, default port for a path-only URI");
+    VERIF_ASSERT(uri.path.length == (size_t)(i - 1) && (uri.path.length == 0 || uri.path.s == s + 1), "B1 path-only: path is the bytes up to '?'");
+    if (i < (int)len) VERIF_ASSERT(uri.query.length == len - i - 1 && uri.query.s == s + i + 1, "B1 path-only: query is the bytes after '?'");
+    else VERIF_ASSERT(uri.query.length == 0, "B1 path-only: no query without '?'");
+  } else {
+    VERIF_ASSERT(res < 0, "B1 a string too short for any scheme and without leading '/' is rejected");
+  }
+  (void)u; (void)pre;
+#else
+  ref_authority(s + pre, K, b1_ports[SCH], &u);
+  int sup = b1_supidx[SCH] < 0 ? 1 : b1_sup[b1_supidx[SCH]];
+  if (b1_proxy_only[SCH] && !PROXY) sup = 0;
+  if (!sup) {
+    VERIF_ASSERT(res < 0, "B1 a scheme this build does not support (or a proxy-only scheme in a non-proxy URI) is rejected");
+  } else {
+    VERIF_ASSERT((res == 0) == (u.ok != 0), "B1 accepts exactly the URIs of RFC 7252 6.1/6.2 structure (host [:port] path-abempty [?query])");
+    if (res == 0 && u.ok) {
+      VERIF_ASSERT(uri.scheme == b1_schemes[SCH], "B1 scheme recognised");
+      VERIF_ASSERT(uri.port == u.port, "B1 port: explicit decimal value, else the scheme default (0 for a Unix-domain host)");
+      VERIF_ASSERT(uri.host.length == (size_t)u.hl && uri.host.s == s + pre + u.ho, "B1 host: reg-name/IPv4 up to ':' '/' '?', or the inside of an IPv6 literal");
+      VERIF_ASSERT(uri.path.length == (size_t)u.pl && (u.pl == 0 || uri.path.s == s + pre + u.po), "B1 path: bytes after the first '/' up to '?'");
+      VERIF_ASSERT(uri.query.length == (size_t)u.ql && (u.ql == 0 || uri.query.s == s + pre + u.qo), "B1 query: bytes after the first '?'");
+    }
+  }
+#endif
+  free(s);
+#ifdef WITNESS
+#if !defined(NOSCHEME) && (SCH == 4 || SCH == 5) && !PROXY
+  if (res < 0) VERIF_REACH("B1 proxy-only scheme rejected");
+#elif !defined(NOSCHEME) && K >= 5
+  if (res == 0 && uri.port == 7 && uri.query.length == 1) VERIF_REACH("B1 host:port?query accepted");
+#elif !defined(NOSCHEME) && K >= 1
+  if (res == 0) VERIF_REACH("B1 accepted");
+#else
+  VERIF_REACH("B1 end");
+#endif
+#endif
+}
+#endif /* B1 */
